@@ -76,7 +76,7 @@ def shards(tier, seed):
 def limit_expectation(m: R.Msg, lim):
     """'over' (must be rejected), 'under' (limits do not matter), 'slack' (either)."""
     ml, mf, mh = lim
-    n_tr = len(m.trailers)
+    n_tr = len(m.trailers) + getattr(m, "partial_trailer_lines", 0)  # lines of a trailer section that has not ended yet count too
     if m.max_line > ml or m.max_field_line > mf or m.max_chunk_line > ml or m.max_trailer_line > mf:
         return "over"
     if m.n_fields > mh:
